@@ -49,11 +49,14 @@ def run_c02(res, rng):
     for j, f in enumerate(D.tecmp_samples(tr)):
         fr = [f[:k] for k in range(len(f) + 1)]
         cases.append(Case('tt%d' % j, [D.feed_line(1, x) for x in fr], dict(frames=fr)))
+    ct = D.tecmp_consistent_truncations(rng.fork('ctrunc'))
+    for j in range(0, len(ct), 80):
+        cases.append(Case('ct%d' % j, [D.feed_line(1, x) for x in ct[j:j + 80]], dict(frames=ct[j:j + 80])))
     # memory safety is observed on the implementation (ASan/UBSan, lifetime and const-ness probes); the model must say Ok on the same input
     def proj(c, lines):
         return ['N ' + l.split()[1] for l in lines if l.startswith('N ')] + anomalies(lines)
     correspondence(res, cases, proj, D.judge_c02, 'memory safety / termination of decode')
-    res.cov['rule'] = ('sequences of 1-20 buffers on one decoder: random bytes, 0x00-led buffers, TECMP samples of every kind and CMP frames (valid, inconsistent inner lengths, segment chains), each mutated by truncation, byte corruption, length/type/flag field +-1/0/0xFF, appended bytes; every truncation of sample frames; 64 KiB buffers; accepted segment chains whose total payload is 65519..131070 bytes; histories in which 32767 / 65534..65536 (thorough: up to 131071) reassemblies of another endpoint are opened and released between the abort of an endpoint\'s reassembly and a stray continuation segment of it. '
+    res.cov['rule'] = ('sequences of 1-20 buffers on one decoder: random bytes, 0x00-led buffers, TECMP samples of every kind and CMP frames (valid, inconsistent inner lengths, segment chains), each mutated by truncation, byte corruption, length/type/flag field +-1/0/0xFF, appended bytes; every truncation of sample frames; TECMP status messages cut at every length with their inner length word made consistent with the cut; 64 KiB buffers; accepted segment chains whose total payload is 65519..131070 bytes; histories in which 32767 / 65534..65536 (thorough: up to 131071) reassemblies of another endpoint are opened and released between the abort of an endpoint\'s reassembly and a stray continuation segment of it. '
                        'Each input is copied to an exact-size heap block that is poisoned and freed before results are read; results are re-read after all decoders are destroyed (ASan+UBSan build). non-trivial = distinct buffers of >= 24 bytes')
     res.cov['distinct_nontrivial'] = nontrivial_frames(cases)
     res.cov['input_distribution'] = frame_stats(cases)
